@@ -2,22 +2,27 @@
 (***************************************************************************)
 (* Exact integer and fixed-point arithmetic shared by every family spec.    *)
 (*                                                                         *)
-(* A "number" is either a TLC integer (|n| < 2^31) or, when it does not     *)
-(* fit, a decimal STRING ("123456789012345678901").  The definitions in     *)
-(* this module are the pure-TLA+ meaning of each operator on integers; they *)
-(* are what the bounded exhaustive configurations evaluate.  For trace      *)
-(* validation at the implementation's precision (10^18, 256-bit amounts)    *)
-(* the same operators are overridden by Num.class (BigInteger), which       *)
-(* accepts ints and decimal strings and canonicalises results (int when it  *)
-(* fits, string otherwise) so that "=" stays structural.  The override is   *)
-(* arithmetic only: every formula, rounding rule and property is TLA+.      *)
+(* The definitions in this module are the pure-TLA+ meaning of each         *)
+(* operator on integers; they are what the bounded exhaustive               *)
+(* configurations evaluate (Num.class absent from the run directory).  For  *)
+(* trace validation at the implementation's precision (10^18, 256-bit       *)
+(* amounts) the same operators are overridden by Num.class (BigInteger):    *)
+(* it accepts ints and decimal STRINGS and always returns canonical decimal *)
+(* strings, so that "=" between amounts stays structural (TLC refuses to    *)
+(* compare a string with an integer; therefore every AMOUNT that is stored  *)
+(* or compared must come out of an N-operator or be written N0 / N1, and    *)
+(* traces log every amount as a string; heights, nonces and counters stay   *)
+(* plain integers).  The override is arithmetic only: every formula,        *)
+(* rounding rule and property is TLA+.                                      *)
 (***************************************************************************)
 EXTENDS Integers
 
 NAbs(a) == IF a < 0 THEN -a ELSE a
 
-\* canonical form of a logged number (identity on ints)
+\* canonical form of a number (identity on ints; decimal string under the override)
 NC(a) == a
+N0 == NC(0)
+N1 == NC(1)
 
 NAdd(a, b) == a + b
 NSub(a, b) == a - b
